@@ -1,5 +1,123 @@
-/-
-C16 — property theorems (stub: not built yet).
+import RegexVerif.Model.Class
+import RegexVerif.Lemmas.Class
+
+/-!
+C16 — character-class membership is exact set algebra.
+
+`RegexVerif.Class` (Model/Class.lean) mirrors `syntax/charclass.go`; leg K ties it to the Go code
+(structure of parsed classes, lookups, case equivalences).  The theorems below say that every lookup
+path of the model computes the set-algebra specification `memAlg`, and that every normalisation and
+building operation changes `memAlg` exactly as set algebra prescribes.  `cat` is the Unicode
+category oracle (arbitrary), runes are `Nat`, `maxRune = 0x10FFFF`.
 -/
 namespace RegexVerif.Props.C16
+open RegexVerif.Class
+
+/-- a concrete class used to show that hypotheses are satisfiable: `[a-cf-hk-mp-rt-vx-z\p{7}-[b-[^\p{2}]]]`
+(six ranges: the binary-search path; a category; two nested subtractions, the inner one negated) -/
+def sample : Class :=
+  .minus { ranges := [(97, 99), (102, 104), (107, 109), (112, 114), (116, 118), (120, 122)], cats := [(7, false)] }
+    (.minus { ranges := [(98, 98)] } (.leaf { cats := [(2, false)], neg := true }))
+
+/-- a toy oracle: category `id` holds the multiples of `id` -/
+def sampleCat : Nat → Nat → Bool := fun id ch => ch % id == 0
+
+/-- **The slow path computes set algebra.**  For a class whose range lists are sorted with
+non-decreasing ends (every class the parser or `canonicalize` produces; see `canonicalize_canonical`)
+`charInSlow` — linear scan for at most four ranges, binary search otherwise, the category loop,
+`negate`, the recursive `!sub.CharIn` which may read the subtractor's bitmap — equals
+((some range ∨ some category entry) xor negate) ∧ ¬ subtracted. -/
+theorem memImpl_eq_memAlg (cat : Nat → Nat → Bool) (c : Class) (ch : Nat)
+    (hl : Class.RangesOk c) (hb : BitmapOk cat c) : charInSlow cat c ch = memAlg cat c ch :=
+  charInSlow_eq_memAlg cat c ch hl hb
+
+example : Class.RangesOk sample ∧ BitmapOk sampleCat sample := by
+  have hs : strip sample = sample := by decide
+  refine ⟨⟨?_, ?_, ?_⟩, hs ▸ bitmapOk_strip sampleCat sample⟩ <;> (simp only [Class.RangesOk, LookupOk]; decide)
+
+example : charInSlow sampleCat sample 121 = true ∧ charInSlow sampleCat sample 98 = false ∧
+    charInSlow sampleCat sample 99 = true ∧ charInSlow sampleCat sample 100 = false ∧
+    charInSlow sampleCat sample 14 = true ∧ charInSlow sampleCat sample 1001 = true := by decide
+
+/-- **`CharIn` (fast path included) computes set algebra** whenever the bitmaps present are the ones
+`prepareASCIIBitmap` built (`BitmapOk`). -/
+theorem charIn_eq_memAlg (cat : Nat → Nat → Bool) (c : Class) (ch : Nat)
+    (hl : Class.RangesOk c) (hb : BitmapOk cat c) : charIn cat c ch = memAlg cat c ch := by
+  rw [charIn_eq_charInSlow cat c ch hb]; exact charInSlow_eq_memAlg cat c ch hl hb
+
+/-- **The ASCII bitmap is exact.**  After `prepareASCIIBitmap` (subtractor first, then 128 calls of
+`charInSlow`) the class has a bitmap, every bitmap in it agrees with the slow path, and `CharIn`
+answers every rune — below 128 from the bitmap, otherwise from the slow path — as the slow path
+of the class before preparation did. -/
+theorem bitmap_eq (cat : Nat → Nat → Bool) (c : Class) (hb : BitmapOk cat c) :
+    BitmapOk cat (prepare cat c) ∧ (prepare cat c).flat.ascii ≠ none ∧
+      ∀ ch, charIn cat (prepare cat c) ch = charInSlow cat c ch := by
+  obtain ⟨h1, h2, h3⟩ := prepare_spec cat c hb
+  exact ⟨h1, h3, fun ch => by rw [charIn_eq_charInSlow cat _ ch h1]; exact h2 ch⟩
+
+/-- the same, read at the level of bits: bit `ch` of the bitmap of a prepared class is set-algebra
+membership of `ch` (for classes with sorted range lists) -/
+theorem bitmap_bit_eq_memAlg (cat : Nat → Nat → Bool) (c : Class) (hl : Class.RangesOk c)
+    (bm : Nat × Nat) (h : (prepare cat (strip c)).flat.ascii = some bm) (ch : Nat) (hch : ch < 128) :
+    bitTest bm ch = memAlg cat (strip c) ch := by
+  have hb := bitmapOk_strip cat c
+  obtain ⟨h1, _, h3⟩ := bitmap_eq cat (strip c) hb
+  have hl' : Class.RangesOk (strip c) := rangesOk_strip c hl
+  have := h3 ch
+  rw [charInSlow_eq_memAlg cat _ ch hl' hb] at this
+  rw [← this]
+  unfold charIn viaBitmap
+  simp [hch, h]
+
+set_option maxRecDepth 20000 in
+example : (prepare sampleCat sample).flat.ascii = some (9295997013522923649, 5185679234845122624) := by decide
+
+/-- **The category loop is a disjunction** (after commit 4abd18d): `charInCategories` answers true
+exactly when some entry accepts the rune — a positive entry whose category contains it or a negated
+entry whose category does not. -/
+theorem catLoop_is_disjunction (cat : Nat → Nat → Bool) (cs : List (Nat × Bool)) (ch : Nat) :
+    catLoop cat cs ch = true ↔ ∃ c ∈ cs, cat c.1 ch ≠ c.2 := by
+  rw [catLoop_eq_inCats]
+  simp [inCats, catAccepts, List.any_eq_true]
+
+/-- `[\W\d]`-like witness of the old defect: a negated entry that rejects, then a positive one that accepts -/
+example : catLoop sampleCat [(2, true), (3, false)] 6 = true := by decide
+
+/-- **Singleton reduction (`reduceSet`).**  A class for which `IsSingleton` holds matches exactly
+`SingletonChar`; one for which `IsSingletonInverse` holds matches exactly the other runes. -/
+theorem singleton_reduce_mem (cat : Nat → Nat → Bool) (c : Class) :
+    (c.isSingleton = true → ∃ x, c.singletonChar = some x ∧ ∀ ch, memAlg cat c ch = decide (ch = x)) ∧
+    (c.isSingletonInverse = true → ∃ x, c.singletonChar = some x ∧ ∀ ch, memAlg cat c ch = !decide (ch = x)) := by
+  cases c with
+  | minus f s => simp [Class.isSingleton, Class.isSingletonInverse]
+  | leaf f =>
+    obtain ⟨ranges, cats, neg, anything, building, ascii⟩ := f
+    constructor
+    · intro h
+      simp only [Class.isSingleton, Bool.and_eq_true, Bool.not_eq_true', List.isEmpty_iff] at h
+      obtain ⟨⟨hn, hc⟩, hr⟩ := h
+      match ranges, hr with
+      | [r], hr =>
+        simp only [beq_iff_eq] at hr
+        refine ⟨r.1, rfl, fun ch => ?_⟩
+        subst hn hc
+        simp only [memAlg, Flat.memAlg, Flat.pos, inRanges_cons, inRanges_nil, inCats_nil, Bool.or_false, Bool.bne_false]
+        apply bool_eq_of_iff
+        rw [inRange_iff]; simp only [decide_eq_true_eq]; omega
+    · intro h
+      simp only [Class.isSingletonInverse, Bool.and_eq_true, List.isEmpty_iff] at h
+      obtain ⟨⟨hn, hc⟩, hr⟩ := h
+      match ranges, hr with
+      | [r], hr =>
+        simp only [beq_iff_eq] at hr
+        refine ⟨r.1, rfl, fun ch => ?_⟩
+        subst hn hc
+        simp only [memAlg, Flat.memAlg, Flat.pos, inRanges_cons, inRanges_nil, inCats_nil, Bool.or_false, Bool.bne_true]
+        congr 1
+        apply bool_eq_of_iff
+        rw [inRange_iff]; simp only [decide_eq_true_eq]; omega
+
+example : (Class.leaf { ranges := [(65, 65)] }).isSingleton = true ∧
+    (Class.leaf { ranges := [(65, 65)], neg := true }).isSingletonInverse = true := by decide
+
 end RegexVerif.Props.C16
